@@ -247,11 +247,11 @@ package closest
 //@   after assign:cResults#1: assume [env.results] forall(k, 0, nQ, 0 <= resultOf(k) && resultOf(k) < nQ && envat(cResults, resultOf(k)).qidx == k) && forall(j, 0, nQ, 0 <= envat(cResults, j).qidx && envat(cResults, j).qidx < nQ && resultOf(envat(cResults, j).qidx) == j)
 //@   after assign:cResults#1: assume [env.errors] forallint(k, envat(cErr, k) != nil)
 //@   loop 1:
-//@     invariant len(recvd(cErr)) == 0 && len(recvd(cResults)) == 0 && nQ == len(queries) && len(QResultsArray) == nQ && freshslice(QResultsArray)
+//@     invariant !gErrSeen && !gWriteFailed && len(recvd(cErr)) == 0 && len(recvd(cResults)) == 0 && nQ == len(queries) && len(QResultsArray) == nQ && freshslice(QResultsArray)
 //@   loop 2:
-//@     invariant len(recvd(cErr)) == 0 && len(recvd(cResults)) == 0 && nQ == len(queries) && len(QResultsArray) == nQ && freshslice(QResultsArray)
+//@     invariant !gErrSeen && !gWriteFailed && len(recvd(cErr)) == 0 && len(recvd(cResults)) == 0 && nQ == len(queries) && len(QResultsArray) == nQ && freshslice(QResultsArray)
 //@   loop 3:
-//@     invariant 0 <= i && i <= nQ && len(recvd(cErr)) == 0 && len(recvd(cResults)) == i && nQ == len(queries) && len(QResultsArray) == nQ && freshslice(QResultsArray)
+//@     invariant !gErrSeen && !gWriteFailed && 0 <= i && i <= nQ && len(recvd(cErr)) == 0 && len(recvd(cResults)) == i && nQ == len(queries) && len(QResultsArray) == nQ && freshslice(QResultsArray)
 //@     invariant [c12.slots] forall(j, 0, i, QResultsArray[envat(cResults, j).qidx] == envat(cResults, j))
 //@   before call:writeClosest#1: assert [c12.slots] forall(k, 0, nQ, QResultsArray[k] == envat(cResults, resultOf(k)) && QResultsArray[k].qidx == k)
 //@   before call:writeClosest#1: assert [c06.writer.args] arg(1) == measure && arg(2) == out
@@ -274,11 +274,11 @@ package closest
 //@   after assign:cResults#1: assume [env.results] forall(k, 0, nQ, 0 <= resultOfN(k) && resultOfN(k) < nQ && envat(cResults, resultOfN(k)).qidx == k) && forall(j, 0, nQ, 0 <= envat(cResults, j).qidx && envat(cResults, j).qidx < nQ && resultOfN(envat(cResults, j).qidx) == j)
 //@   after assign:cResults#1: assume [env.errors] forallint(k, envat(cErr, k) != nil)
 //@   loop 1:
-//@     invariant len(recvd(cErr)) == 0 && len(recvd(cResults)) == 0 && nQ == len(queries) && len(QResultsArray) == nQ && freshslice(QResultsArray)
+//@     invariant !gErrSeen && !gWriteFailed && len(recvd(cErr)) == 0 && len(recvd(cResults)) == 0 && nQ == len(queries) && len(QResultsArray) == nQ && freshslice(QResultsArray)
 //@   loop 2:
-//@     invariant len(recvd(cErr)) == 0 && len(recvd(cResults)) == 0 && nQ == len(queries) && len(QResultsArray) == nQ && freshslice(QResultsArray)
+//@     invariant !gErrSeen && !gWriteFailed && len(recvd(cErr)) == 0 && len(recvd(cResults)) == 0 && nQ == len(queries) && len(QResultsArray) == nQ && freshslice(QResultsArray)
 //@   loop 3:
-//@     invariant 0 <= i && i <= nQ && len(recvd(cErr)) == 0 && len(recvd(cResults)) == i && nQ == len(queries) && len(QResultsArray) == nQ && freshslice(QResultsArray)
+//@     invariant !gErrSeen && !gWriteFailed && 0 <= i && i <= nQ && len(recvd(cErr)) == 0 && len(recvd(cResults)) == i && nQ == len(queries) && len(QResultsArray) == nQ && freshslice(QResultsArray)
 //@     invariant [c12.slots] forall(j, 0, i, QResultsArray[envat(cResults, j).qidx] == envat(cResults, j))
 //@   before call:writeClosestNTable#1: assert [c12.slots] table && forall(k, 0, nQ, QResultsArray[k] == envat(cResults, resultOfN(k)) && QResultsArray[k].qidx == k)
 //@   before call:writeClosestN#1: assert [c12.slots] !table && forall(k, 0, nQ, QResultsArray[k] == envat(cResults, resultOfN(k)) && QResultsArray[k].qidx == k)
